@@ -317,6 +317,35 @@ func (it *Interp) concretize(t *Term) uint64 {
 	}
 }
 
+// tryConst returns a constant if t can take only one value under the path condition
+// (two solver queries, recorded in the trace so that re-execution does not repeat them).
+func (it *Interp) tryConst(t *Term) *Term {
+	if t.IsConst() || it.Concrete != nil {
+		return t
+	}
+	if it.pos < len(it.trace) {
+		d := it.trace[it.pos]
+		it.pos++
+		if d.val == 1 {
+			return it.St.Const(t.S.W, d.aux)
+		}
+		return t
+	}
+	r, vals := it.modelOf(nil, []*Term{t})
+	d := decision{val: 0}
+	res := t
+	if r == Sat {
+		v := vals[0]
+		if it.check(it.St.Ne(t, it.St.Const(t.S.W, v))) == Unsat {
+			d = decision{val: 1, aux: v}
+			res = it.St.Const(t.S.W, v)
+		}
+	}
+	it.trace = append(it.trace, d)
+	it.pos++
+	return res
+}
+
 func (it *Interp) nextPrefix() bool {
 	for len(it.trace) > 0 {
 		d := &it.trace[len(it.trace)-1]
